@@ -107,6 +107,17 @@ func verdictAt(v map[string][]string, pos string, what string) string {
 	if !ok {
 		return res
 	}
+	// string <-> slice conversions of a non-constant operand: "does not escape" only means the runtime may
+	// use its 32-byte stack buffer; a longer operand is copied to the heap all the same.  They count as
+	// allocating unless the compiler says it elided the copy altogether ("zero-copy ... conversion").
+	if what == "string->slice conversion" || what == "slice->string conversion" {
+		for _, m := range msgs {
+			if strings.Contains(m, "zero-copy") {
+				return "stack"
+			}
+		}
+		return "heap"
+	}
 	for _, m := range msgs {
 		match := false
 		for _, k := range keys {
